@@ -1014,9 +1014,13 @@ impl Walrus {
             }
             let buffer = &buffers[plan_idx];
             let mut buf_offset = 0usize;
+            // Set when parsing stopped for the entry cap or the byte budget: entries of this
+            // range remain unread, so later ranges must not be delivered ahead of them.
+            let mut stopped_short = false;
 
             while buf_offset < buffer.len() {
                 if entries.len() >= MAX_BATCH_ENTRIES {
+                    stopped_short = true;
                     break;
                 }
                 // Try to read metadata header
@@ -1057,6 +1061,7 @@ impl Walrus {
                     .checked_add(data_size)
                     .unwrap_or(usize::MAX);
                 if next_total > max_bytes && !entries.is_empty() {
+                    stopped_short = true;
                     break;
                 }
 
@@ -1116,6 +1121,12 @@ impl Walrus {
                 }
 
                 buf_offset += entry_consumed;
+            }
+
+            // A sealed range that was planned only partially (raw-byte budget ended inside the
+            // block) also leaves entries of that block unread.
+            if stopped_short || (!read_plan.is_tail && read_plan.end < read_plan.blk.used) {
+                break;
             }
         }
 
